@@ -239,6 +239,15 @@ class CleanString(Contract):
             return remove_quotes_spec(val)
         if isinstance(val, list):
             return [self.at_call(E, tr, v) for v in val]
+        from pyvc.absx import AbsMap
+        if isinstance(val, AbsMap):
+            # remove_quotes maps over lists: a list of unknown length is mapped element-wise
+            inner = val
+
+            def apply(elem, inner=inner):
+                cond, v = inner.apply(elem)
+                return cond, self.at_call(E, tr, v)
+            return AbsMap(inner.source, apply)
         return val
 
 
